@@ -191,7 +191,7 @@ class Check(core.PropertyCheck):
     SPEC_DIR = "WebAuth"
     MODEL = "WebAuth"
     MON = "Mon_WebAuth"
-    REQUIRED_WITNESSES = ("unauth_endpoint", "unauth_unimplemented", "unauth_ws", "unauth_static", "forged_cookie",
+    REQUIRED_WITNESSES = ("unauth_on_authenticated_connection", "unauth_on_kept_connection", "unauth_endpoint", "unauth_unimplemented", "unauth_ws", "unauth_static", "forged_cookie",
                           "stale_cookie", "wrong_credential", "cookie_session_ok", "password_ok", "session_granted",
                           "authorised_state_change", "authorised_sees_flows", "authorised_ws", "authorised_no_xsrf",
                           "authorised_cross_site", "restart", "newpw")
@@ -279,7 +279,7 @@ class Check(core.PropertyCheck):
             elif name == "NewPw":
                 pre.append(["newpw"])
             elif name == "Probe":
-                pre.append(["probe", list(args[0]) + [rng.randrange(64)]])
+                pre.append(["probe", list(args[0]) + [rng.randrange(64)], bool(args[1])])
             for ev in core.tlaval.to_py(st.get("obs", ())):
                 if isinstance(ev, dict) and ev.get("k") == "req":
                     pred.append(ev.get("pred", ""))
@@ -325,7 +325,8 @@ class Check(core.PropertyCheck):
         per = 24
         for i in range(0, len(rows), per):
             yield core.Scenario({"mode": modes[(i // per) % 3], "seed": rng.randrange(1 << 30),
-                                 "steps": [["probe", r] for r in rows[i:i + per]], "pred": []}, source="table")
+                                 "steps": [["probe", r, rng.random() < 0.5] for r in rows[i:i + per]], "pred": []},
+                                source="table")
         # random sessions: logins, restarts, password changes and probes of every class in any order
         allcreds = list(CRED_NO + CRED_YES + CRED_AMB)
         for i in range(150 if ctx.quick else 2500):
@@ -343,7 +344,8 @@ class Check(core.PropertyCheck):
                     meth = rng.choice(r["impl"] or ["GET"]) if rng.random() < 0.6 else rng.choice(METHODS_ALL)
                     steps.append(["probe", [r["name"], meth, rng.choice(allcreds),
                                             rng.choice(["none", "jar", "jar", "jar_first"] + list(CK_FORGED)),
-                                            rng.choice(XSRF_OK + XSRF_BAD), rng.choice(SFS), rng.randrange(64)]])
+                                            rng.choice(XSRF_OK + XSRF_BAD), rng.choice(SFS), rng.randrange(64)],
+                                  rng.random() < 0.5])
             yield core.Scenario({"mode": modes[i % 3], "seed": rng.randrange(1 << 30), "steps": steps, "pred": []},
                                 source="random")
 
@@ -561,7 +563,7 @@ class _Run:
     _BODIES = {("Options", "PUT"): b'{"anticache": true}', ("FlowHandler", "PUT"): b'{"comment": "edited"}',
                ("ExecuteCommand", "POST"): b'{"arguments": []}', ("FlowContent", "POST"): b"new content"}
 
-    def _probe(self, route, method, cred, ck, xsrf, sfs, var, pred=""):
+    def _probe(self, route, method, cred, ck, xsrf, sfs, var, pred="", keep=False):
         self.var = var
         r = self.routes.get(route)
         if r is None:
@@ -595,7 +597,8 @@ class _Run:
             except Exception:
                 pass
 
-        resp = self.drv.request(method, target, hdrs, body, after_upgrade=poke)
+        # every request goes over a keep-alive connection: the one that carried the previous request, or a fresh one
+        resp = self.drv.request(method, target, hdrs, body, after_upgrade=poke, conn="keep" if keep else "new")
         if resp.status == 101:
             self._wait_conns(before[3])
         after = self._project()
@@ -611,7 +614,7 @@ class _Run:
                 self.xsrf_cookie = v
         self.trace.append({
             "k": "req", "route": route, "cls": r["kind"], "method": method, "impl": method in r["impl"],
-            "cred": cred, "credok": cred_ok(cred), "ck": ckno, "setck": setck, "xsrf": xsrf,
+            "cred": cred, "credok": cred_ok(cred), "kept": bool(resp.reused), "ck": ckno, "setck": setck, "xsrf": xsrf,
             "xsrfok": xsrf in XSRF_OK, "sfs": sfs, "status": resp.status, "changed": changed, "leak": leak,
             "pred": pred})
         if changed:
@@ -660,8 +663,10 @@ class _Run:
                 route, method, cred, ck, xsrf, sfs, var = st[1]
                 if ck in ("jar", "jar_first") and not self.jar:
                     ck = "none"
-                if not self._probe(route, method, cred, ck, xsrf, sfs, var, next_pred()):
+                keep = bool(st[2]) if len(st) > 2 else False
+                if not self._probe(route, method, cred, ck, xsrf, sfs, var, next_pred(), keep):
                     break
+        self.drv.drop_connection()
         return self.trace
 
 
